@@ -217,10 +217,13 @@ Definition judge_obs (t : itree) (ob : obs) : N :=
                  end in
   let app := applicable (ob_pl ob) t in
   let want := expected (ob_pl ob) t in
+  (* the exception is a permission, not a duty: the output is normalised too *)
+  let nrm := match ob_pl ob with None => norm_ws | Some _ => norm_ws_root end in
   let c_oracle :=
     app && negb (match ob_outs ob with
                  | [] => false
-                 | outs => forallb (fun out => opt_eqb itree_eqb (Some want) (option_map (canon []) out)) outs
+                 | outs => forallb (fun out => opt_eqb itree_eqb (Some want)
+                                                       (option_map (fun x => nrm (canon [] x)) out)) outs
                  end) in
   let c_lax :=
     match ob_pl ob with
